@@ -554,7 +554,39 @@ def eval_gated(body, pt, local, use_bb, leaf, use_idx=None, on_def=None):
 
     def leaf2(q):
         return leaf(q)
-    return eval_term(t, leaf2)
+    try:
+        return eval_term(t, leaf2)
+    except NotEvaluable:
+        # an operand that is itself assigned in several arms (`base + low_bits` with low_bits an if-expression): evaluate the
+        # operands as gated locals and combine
+        if rv.k in ("binop", "cast") and (not isinstance(i, int) or i >= 0):
+            def opv(op):
+                if op.is_const() and op.const_int() is not None:
+                    return op.const_int()
+                if op.place is not None and not op.place.proj:
+                    return eval_gated(body, pt, op.place.local, bb, leaf, i, on_def)
+                return eval_term(pt.at(bb, i).of_operand(op), leaf2)
+            if rv.k == "binop":
+                va, vb = opv(rv.a), opv(rv.b)
+                return eval_term((rv.binop.replace("WithOverflow", ""), ("const", va), ("const", vb), rv.a.ty.s), leaf2)
+            va = opv(rv.op)
+            return eval_term(("cast", rv.ty.s, ("const", va), rv.op.ty.s), leaf2)
+        # the value half of a checked operation: `_t = AddWithOverflow(a, b); x = move _t.0`
+        if rv.k == "use" and rv.op.place is not None and len(rv.op.place.proj) == 1 and rv.op.place.proj[0][0] == "field" and \
+                rv.op.place.proj[0][1] == 0:
+            cands = [(b2.idx, j2, s2) for b2 in body.blocks if not b2.cleanup for j2, s2 in enumerate(b2.stmts)
+                     if s2.k == "assign" and not s2.place.proj and s2.place.local == rv.op.place.local and s2.rv.k == "binop"]
+            if len(cands) == 1:
+                b2i, j2, s2 = cands[0]
+
+                def opv2(op):
+                    if op.is_const() and op.const_int() is not None:
+                        return op.const_int()
+                    if op.place is not None and not op.place.proj:
+                        return eval_gated(body, pt, op.place.local, b2i, leaf, j2, on_def)
+                    return eval_term(pt.at(b2i, j2).of_operand(op), leaf2)
+                return eval_term((s2.rv.binop.replace("WithOverflow", ""), ("const", opv2(s2.rv.a)), ("const", opv2(s2.rv.b)), s2.rv.a.ty.s), leaf2)
+        raise
 
 
 def reached_under(body, pt, start, leaf, stops, avoid=()):
